@@ -865,6 +865,8 @@ def eval_dyad_reshape(a, b, backend):
 
     """
     np_backend = backend.np
+    if np_backend.isarray(a) and a.ndim == 1 and len(a) == 1 and a[0] >= 0:
+        a = a[0] # a one-dimensional shape takes whole elements (rows) like an integer does
     j = isinstance(b, str) and not isinstance(b, (KGSym, KGChar))
     b = backend.str_to_chr_arr(b) if j else b
     if isinstance(b, str):
